@@ -81,6 +81,7 @@ Proof. exact Options_Proofs.clamp_refuted. Qed.
 (* the functions this property's model is an abstraction of still have the control / locking / shared-state skeleton the
    model was written against (Skeletons.v, by hand; Extracted.v, regenerated from /repo) *)
 Theorem c17_code_skeletons :
+  JRGen.Extracted.effects_resetReadDeadline = JR.Skeletons.resetReadDeadline /\
   JRGen.Extracted.effects_setupPings = JR.Skeletons.setupPings /\
   JRGen.Extracted.effects_nextMessage = JR.Skeletons.nextMessage /\
   JRGen.Extracted.effects_handleWsConn = JR.Skeletons.handleWsConn.
